@@ -60,6 +60,8 @@ type caseCfg struct {
 	Proxies []proxyCfg `json:"proxies"`
 	// Plugins: additional proxies of client A whose local side is a client plugin (plugin.go)
 	Plugins []pluginCfg `json:"plugins,omitempty"`
+	// Churn: route churn case (churn.go)
+	Churn *churnCfg `json:"churn,omitempty"`
 	// GateVisitor: hold frps at the visitor hand-over hook until the user has read the backend's greeting
 	GateVisitor bool `json:"gate_visitor,omitempty"`
 }
@@ -348,6 +350,9 @@ func genCases(n int, thorough bool, rngFor func(i int) *rand.Rand, servers []*sr
 func (cc *caseCfg) signature() string {
 	var sb strings.Builder
 	fmt.Fprintf(&sb, "s%d|%v|%v|%v|%v", cc.Server, cc.A, cc.B, cc.Plugins, cc.GateVisitor)
+	if cc.Churn != nil {
+		fmt.Fprintf(&sb, "|churn%v", *cc.Churn)
+	}
 	for _, p := range cc.Proxies {
 		fmt.Fprintf(&sb, "|%s,%v,%v,%v,%v,%s%d,%s,%v,%v", p.Kind, p.Enc, p.Comp, p.VEnc, p.VComp, p.Limit, p.LKB, p.PP, p.Greet, p.StrictRate)
 		var cs []string
